@@ -16,6 +16,12 @@ A(i, o, f) == [ins |-> i, outs |-> o, fee |-> f, shift |-> 0, lock |-> 0, nrd |-
 \* 19    coinbase 0 -> 129 fee rate 3000
 \* 20    coinbase 0 -> 102 : the SAME OUTPUT COMMITMENT as atom 2 (same value, same key), disjoint input and kernel
 \* 21    coinbase 3 -> 126 : the same output commitment as atom 16 (which has the dependants 17 and 18)
+\* 22    coinbase 0 -> 130 exact fee, no shift (with 8: 75000 >> 1 < 50000 - the aggregate's shift is the MAXIMUM of its kernels')
+\* 23    coinbase 4 (immature) + 100 (output of A)    24  coinbase 0 (mature) + coinbase 5 (immature)
+\* 25    coinbase 5 (immature) + 102 (output of B / 20): height-dependent rules on transactions with SEVERAL inputs
+\* 26,27 coinbase 0 / 3 -> 5 outputs each (weight 109): with A the pool outweighs a block (264 + 24 > 250)
+\* 28    coinbase 0 + coinbase 2 -> 144 (weight 26: with A and 8 one over what fits under MineWeight 120)
+\* 29    second NRD kernel (spends coinbase 4)
 AtomsFull ==
   <<A({1}, {100, 101}, 46000), A({2}, {102}, 50000), A({100}, {103}, 25000), A({101, 102}, {104}, 26000),
     A({1}, {105}, 75000), A({3}, {106}, 24999),
@@ -24,11 +30,17 @@ AtomsFull ==
     A({3}, 111..121, 235000), A({103}, {122}, 100000),
     [A({0}, {123}, 25000) EXCEPT !.nrd = TRUE], A({5}, {124}, 30000), A({0}, {125}, 1000),
     A({2}, {126}, 250000), A({126}, {127}, 25000), A({127}, {128}, 100000), A({0}, {129}, 75000),
-    A({0}, {102}, 50000), A({3}, {126}, 250000)>>
+    A({0}, {102}, 50000), A({3}, {126}, 250000),
+    A({0}, {130}, 25000), A({4, 100}, {131}, 26000), A({0, 5}, {132}, 26000), A({5, 102}, {133}, 26000),
+    A({0}, 134..138, 109000), A({3}, 139..143, 109000), A({0, 2}, {144}, 26000),
+    [A({4}, {145}, 25000) EXCEPT !.nrd = TRUE]>>
 \* {2, 6}, {16, 7}, {2, 15}: an UNDER-paying atom aggregated with a well-paying one; the aggregate as a whole pays enough
 \* (74999 >= 50000; (250000 + 37500) >> 1 >= 50000; 51000 >= 50000), the remainder left after deaggregating the pooled
 \* partner does not
-SubsFull == {{a} : a \in 1..21} \cup {{1, 2}, {1, 3}, {3, 12}, {2, 8}, {2, 6}, {16, 7}, {2, 15}}
+\* {22, 8}: exact payer without shift + exact payer with shift 1: under-pays as an aggregate; {2, 9}, {2, 10}: an immature
+\* spend / a locked kernel inside an aggregate; {1, 3, 12}, {1, 2, 19}: three kernels, two of them pooled separately
+SubsFull == {{a} : a \in 1..29} \cup {{1, 2}, {1, 3}, {3, 12}, {2, 8}, {2, 6}, {16, 7}, {2, 15}}
+            \cup {{22, 8}, {2, 9}, {2, 10}, {1, 3, 12}, {1, 2, 19}}
 
 \* small universe for exhaustive checking: parent with two outputs, second parent, child, two-parent child,
 \* conflicting spend, under-payer, immature coinbase spend, locked kernel
@@ -41,7 +53,7 @@ SubsSmall == {{a} : a \in 1..9} \cup {{1, 2}, {1, 3}, {2, 6}}     \* {2, 6}: ove
 \* output commitments created by more than one atom, their creators and spenders (Pool.tla checks them against Atoms)
 DupFull == {102, 126}
 DupCreatorsFull == [c \in {102, 126} |-> IF c = 102 THEN {2, 20} ELSE {16, 21}]
-DupSpendersFull == [c \in {102, 126} |-> IF c = 102 THEN {4} ELSE {17}]
+DupSpendersFull == [c \in {102, 126} |-> IF c = 102 THEN {4, 25} ELSE {17}]
 DupSmall == {102}
 DupCreatorsSmall == [c \in {102} |-> {2, 9}]
 DupSpendersSmall == [c \in {102} |-> {4}]
@@ -102,18 +114,46 @@ Scripts == <<
   \*     lying input features), NRD kernel - all refused; then a valid one (admitted, one entry evicted)
   <<Sub({1}), Sub({2}), Sub({8}), Sub({10}), Sub({9}), Sub({13}), Sub({14}), SubF({9}, "mislabelled"), SubF({10}, "declared"),
     Sub({19})>>
->> \o (IF ShortReorg THEN <<
-  \* 15: a heavier but shorter fork lowers the height: the spend of coinbase 5 admitted at maturity is immature again
-  <<Blk({}), Blk({}), Sub({14}), Sub({10}), Rg(2, <<{}>>), Sub({19}), Blk({}), Sub({14})>> >> ELSE <<>>)
+  ,
+  \* 15 (ShortReorg): a heavier but shorter fork lowers the height: the spend of coinbase 5 admitted at maturity is immature again
+  <<Blk({}), Blk({}), Sub({14}), Sub({10}), Rg(2, <<{}>>), Sub({19}), Blk({}), Sub({14})>>,
+  \* 16 (capacity 3): coinbase maturity and lock height of transactions with SEVERAL inputs, one block early and at the
+  \*     boundary: immature coinbase + pool output (23), mature + immature coinbase (24), immature coinbase + pool output
+  \*     of another parent (25), as fluff, as stem, with lying input features, inside an aggregate whose other half is
+  \*     pooled ({2, 9} immature, {2, 10} locked)
+  <<Sub({1}), Sub({23}), SubF({23}, "mislabelled"), Sub({24}), Sub({2}), Sub({25}), StemSub({23}), Sub({2, 9}), Sub({2, 10}),
+    Blk({}), Sub({23}), Sub({24}), StemSub({25}), Blk({1}), SubF({25}, "declared"), StemSub({24})>>,
+  \* 17: the fee shift of an aggregate is the maximum of its kernels': 22 (exact, no shift) + 8 (exact at shift 1) under-pays
+  \*     as fluff and as stem; once 8 is pooled the remainder 22 is admitted
+  <<Sub({22, 8}), StemSub({22, 8}), Sub({8}), Sub({22, 8}), Sub({22})>>,
+  \* 18: submissions of three kernels of which two are pooled as separate entries: with cut-through between the parts the
+  \*     remainder is no transaction ({1, 3, 12}); without, the remainder 19 is admitted ({1, 2, 19})
+  <<Sub({1}), Sub({3}), Sub({1, 3, 12}), Sub({2}), Sub({1, 2, 19}), Sub({19})>>,
+  \* 19 (MineWeight 120 = 96 + coinbase): a pool of weight 97 - one entry has to stay out of the template; after block {8}
+  \*     the rest (72) fits
+  <<Sub({1}), Sub({8}), Sub({28}), Blk({8}), Sub({3})>>,
+  \* 20 (MineWeight 300 > MaxBlockWeight 250, capacity 50): the miner's configured limit never lifts the consensus limit;
+  \*     the pool (26, 27, 1, 2, 3: 292 + coinbase) outweighs a block
+  <<Sub({26}), Sub({27}), Sub({1}), Sub({2}), Sub({3}), Blk({26, 27}), Sub({12})>>,
+  \* 21 (NRD enabled, Trunk 7): NRD kernels are refused while the head's header version is below 4 (heights 7, 8), admitted
+  \*     from height 9 on as fluff and as stem, mined, and the stem one fluffed
+  <<Sub({13}), StemSub({29}), Sub({1}), Blk({}), Blk({1}), Sub({13}), StemSub({29}), Blk({13}), Sub({29})>>
+>>
+\* which scripts a configuration runs (its constants have to fit the script)
+ScriptSet == IF NrdEnabled THEN {21} ELSE IF MineWeight > MaxBlockWeight THEN {20} ELSE IF ShortReorg THEN 15..19 ELSE 1..14
 ScriptForm == LET a == Scripts[script][nsteps + 1] IN a.form
 
-Proj == [txpool |-> txpool, stempool |-> stempool, height |-> Height]
+\* tmpl: what mine_block::get_block has to build its template on in this state (Pool!TemplateFor: the BODY head, also while
+\* a header is pending); the set it carries depends on the bucket order (left free) and is judged by Pool!TemplateOK
+Proj == [txpool |-> txpool, stempool |-> stempool, height |-> Height,
+         tmpl |-> [prev |-> TemplateFor({}).prev, height |-> TemplateFor({}).height, pending |-> pending # <<>>]]
 \* how the inputs of a submission are written on the wire (not a parameter of Pool!Submit, see there): commitments only
 \* (what the tx builder produces), with the true output features declared, or with every declared feature flipped
 Forms == <<"commit", "commit", "declared", "mislabelled", "mislabelled">>
 Step == IF last'.k = "Submit"
         THEN [k |-> "Submit", t |-> last'.t, stem |-> last'.stem, relay |-> last'.relay, res |-> last'.res,
-              why |-> last'.why, evict |-> last'.evict, pre |-> last'.pre, allowed |-> last'.allowed, proj |-> Proj',
+              why |-> last'.why, evict |-> last'.evict, pre |-> last'.pre, allowed |-> last'.allowed,
+              codevictim |-> last'.codevictim, proj |-> Proj',
               form |-> IF script > 0 THEN ScriptForm ELSE Forms[RandomElement(1..Len(Forms))]]
         ELSE [k |-> last'.k, d |-> last'.d, bs |-> last'.bs, proj |-> Proj']
 Record == script' = script /\ hist' = IF last'.k \in {"Submit", "Connect", "Reorg", "Header"} THEN Append(hist, Step) ELSE hist
@@ -138,9 +178,11 @@ View == <<chain, txpool, stempool, cache, pending, last, nsteps>>
 \* ---------------- simulation (behaviour generation) ----------------
 Rate(x) == FeeOf(x) \div WeightOf(TxOf(x))
 PosIn(s, x) == CHOOSE i \in 1..Len(s) : s[i] = x
-\* the generator's guess of the victim: lowest fee rate, youngest (the property leaves the choice free)
+\* the generator's guess of the victim (the property leaves the choice free): the entry the code's bucket rule picks when
+\* that one has no dependants, else lowest fee rate, youngest
 Guess(pre, allowed) ==
-  CHOOSE x \in allowed : \A y \in allowed : y # x =>
+  IF CodeVictim(pre) \in allowed THEN CodeVictim(pre)
+  ELSE CHOOSE x \in allowed : \A y \in allowed : y # x =>
      \/ Rate(x) < Rate(y)
      \/ Rate(x) = Rate(y) /\ PosIn(pre, x) > PosIn(pre, y)
 Cands == (IF Mineable # {} THEN {Mineable} ELSE {}) \cup {{}}
@@ -161,10 +203,13 @@ SimSubmit ==
   \E coll \in {{t \in Subs : \E x \in SeqToSet(txpool \o stempool) : x \cap t = {} /\ Created(x) \cap Created(t) # {}}} :
   \* submissions that only a height-dependent rule keeps out right now (lock height, coinbase maturity) or NRD kernels
   \E timed \in {{t \in Subs : (\E a \in t : Atoms[a].nrd) \/ Screen(TxOf(t), AtomsIn(txpool)) \in {"locked", "immature"}}} :
-  \E t \in {IF r <= 6 /\ good # {} THEN RandomElement(good)
+  \E t0 \in {IF r <= 6 /\ good # {} THEN RandomElement(good)
              ELSE IF r = 8 /\ timed # {} THEN RandomElement(timed)
              ELSE IF r = 10 /\ deagg # {} THEN RandomElement(deagg)
              ELSE IF r = 9 /\ coll # {} THEN RandomElement(coll) ELSE RandomElement(c4)} :
+  \* no NRD kernel one block before the header version admits them: the property lets a pool admit it there (the next
+  \* block may carry it), the code does not yet (see Pool!NrdRefused) - both are legitimate
+  \E t \in {IF NrdEnabled /\ Height = NrdHeight - 1 /\ (\E a \in t0 : Atoms[a].nrd) THEN {1} ELSE t0} :
   \E st \in {RandomElement(1..10)} :
      /\ Submit(t, st <= 3, st # 1)
      /\ (last'.evict /\ last'.allowed # {}) => last'.victim = Guess(last'.pre, last'.allowed)
@@ -196,7 +241,7 @@ SimNext ==
 MCSimSpec == MCInit /\ [][SimNext /\ Record]_mcvars
 
 \* ---------------- scripted scenarios (deterministic replay files for the boundary cases) ----------------
-ScriptInit == Init /\ hist = <<>> /\ script \in 1..Len(Scripts)
+ScriptInit == Init /\ hist = <<>> /\ script \in ScriptSet
 ScriptNext ==
   /\ nsteps < Len(Scripts[script])
   /\ LET a == Scripts[script][nsteps + 1]
@@ -212,7 +257,8 @@ ScriptDone == script > 0 /\ nsteps = Len(Scripts[script])
 
 Done == nsteps = MaxSteps \/ ScriptDone
 Behaviour == [cfg |-> [trunk |-> Trunk, maxpool |-> MaxPool, maxstem |-> MaxStem, mineweight |-> MineWeight,
-                       feebase |-> FeeBase, maturity |-> Maturity],
+                       feebase |-> FeeBase, maturity |-> Maturity, nrd |-> NrdEnabled, nrdheight |-> NrdHeight,
+                       maxblockweight |-> MaxBlockWeight],
               atoms |-> Atoms, steps |-> hist, script |-> script]
 Emit == Done => PrintT(<<"POOLBEH", ToJson(Behaviour)>>)
 \* for configurations that are EXPECTED to violate an invariant (code-order fee test, careless eviction):
